@@ -498,11 +498,21 @@ func (sa *Safe) stdlib(fr *frame, st *State, x *ssa.Call, callee *ssa.Function, 
 	case "(*bytes.Buffer).Next":
 		sa.needNonNil(fr, st, args[0], exprText(x.Call.Args[0]), x.Pos())
 		need("safe.stdlib-pre", linConst(0), args[1].Lin, "bytes.Buffer.Next panics for a negative count")
+		if b, ok := bufPtr(args[0]); ok && args[1].Lin != nil {
+			// Next(n) returns min(n, unread) octets: exactly n when the buffer provably holds n
+			if l := sa.bufLen(fr, st, b); l != nil && st.prove(args[1].Lin.add(l, -1)) {
+				sa.setBufLen(st, b, l.add(args[1].Lin, -1))
+				return one(sa.sliceResult(fr, st, sig.Results().At(0).Type(), desc, args[1].Lin, false))
+			}
+		}
 		ln := sa.boundedAtom(fr, st, types.Typ[types.Int], "len("+desc+")", Itv{0, posInf})
 		if args[1].Lin != nil {
 			st.assume(ln.Lin.add(args[1].Lin, -1))
 		}
 		if b, ok := bufPtr(args[0]); ok {
+			if l := sa.bufLen(fr, st, b); l != nil {
+				st.assume(ln.Lin.add(l, -1))
+			}
 			sa.bufShrink(fr, st, b)
 		}
 		return one(sa.sliceResult(fr, st, sig.Results().At(0).Type(), desc, ln.Lin, false))
@@ -519,6 +529,17 @@ func (sa *Safe) stdlib(fr *frame, st *State, x *ssa.Call, callee *ssa.Function, 
 	case "(*bytes.Buffer).ReadByte", "(*bytes.Reader).ReadByte":
 		sa.needNonNil(fr, st, args[0], exprText(x.Call.Args[0]), x.Pos())
 		return callResult{st: st, vals: []AVal{sa.freshM(fr, st, types.Typ[types.Uint8], desc, nilMaybe), sa.errResult(fr, st, desc+".err")}}
+	case "io.ReadFull", "io.ReadAtLeast":
+		// reads into its second argument from a reader; never more than len(buf), error if fewer
+		sa.havocElems(st, args[1])
+		if b, ok := bufPtr(args[0]); ok {
+			sa.bufShrink(fr, st, b)
+		}
+		n := sa.boundedAtom(fr, st, types.Typ[types.Int], desc, Itv{0, posInf})
+		if args[1].Len != nil {
+			st.assume(n.Lin.add(args[1].Len, -1))
+		}
+		return callResult{st: st, vals: []AVal{n, sa.errResult(fr, st, desc+".err")}}
 	case "(*bytes.Buffer).Write", "(*bytes.Buffer).WriteString", "(*bytes.Buffer).Read", "(*bytes.Reader).Read":
 		sa.needNonNil(fr, st, args[0], exprText(x.Call.Args[0]), x.Pos())
 		if strings.HasSuffix(name, ".Read") {
